@@ -419,17 +419,18 @@ Proof. exact ReflectViewProgProofs.list_append_prog_correct. Qed.
 Theorem list_truncate_prog_correct : list_truncate_prog_stmt.
 Proof. exact ReflectViewProgProofs.list_truncate_prog_correct. Qed.
 
-(* AppendMutable: list_appendmutable_prog_stmt (no hypothesis on the view) is FALSE. `v := new(T)` is executed before `*x.list` is
-   read: a dangling view that points one past the end of the heap, at a repeated field of the message type allocated, comes alive.
-   Counterexample: message 0 = { repeated message 0 f }, the empty heap, the view RField 0 0: Reflect.step answers ([], PPanic), the
-   generated method stores the new object in its own field and returns it. No history produces such a view (vp_view_live_kept,
-   vp_result_live below); for live views — in general, whenever the allocation does not revive the view — the statement holds. *)
-Theorem list_appendmutable_prog_stmt_false : ~ list_appendmutable_prog_stmt.
-Proof. exact ReflectViewProgProofs.list_appendmutable_prog_stmt_false. Qed.
+(* AppendMutable: the view must be live (as for Len). `v := new(T)` is executed before `*x.list` is read: a dangling view that points
+   one past the end of the heap, at a repeated field of the message type allocated, would come alive (counterexample below: message 0 =
+   { repeated message 0 f }, the empty heap, the view RField 0 0: Reflect.step answers ([], PPanic), the generated method stores the new
+   object in its own field and returns it). No history produces such a view (vp_view_live_kept, vp_result_live below). *)
+Theorem list_appendmutable_prog_correct : list_appendmutable_prog_stmt.
+Proof. exact ReflectViewProgProofs.list_appendmutable_prog_correct. Qed.
 
-Theorem list_appendmutable_prog_partial : forall sch h t r, wf sch = true -> rp_heap_okb sch h = true ->
-  view_liveb h (PList t r) = true -> vp_agrees sch h (OLAppendMutable (PList t r)).
-Proof. exact ReflectViewProgProofs.list_appendmutable_prog_partial. Qed.
+Theorem list_appendmutable_needs_live_view :
+  wf ReflectViewProgProofs.am_sch = true /\ rp_heap_okb ReflectViewProgProofs.am_sch [] = true /\
+  vp_op_okb [] (OLAppendMutable (PList (TMsg 0) (RField 0 0))) = true /\
+  ~ vp_agrees ReflectViewProgProofs.am_sch [] (OLAppendMutable (PList (TMsg 0) (RField 0 0))).
+Proof. exact ReflectViewProgProofs.list_appendmutable_prog_counterexample. Qed.
 
 Theorem list_appendmutable_prog_gen : forall sch h t r, wf sch = true -> rp_heap_okb sch h = true ->
   (forall m, t = TMsg m -> read_list h r = None -> read_list (h ++ [HObj (new_obj sch m)]) r = None) ->
@@ -467,14 +468,9 @@ Proof. exact ReflectViewProgProofs.map_range_prog_correct. Qed.
 Theorem map_range_stop_prog_correct : map_range_stop_prog_stmt.
 Proof. exact ReflectViewProgProofs.map_range_stop_prog_correct. Qed.
 
-(* all at once. view_prog_correct_stmt is FALSE by the counterexample of AppendMutable (vp_op_okb asks nothing of its view); it holds
-   with the view of AppendMutable live, as the view of Len has to be *)
-Theorem view_prog_correct_stmt_false : ~ view_prog_correct_stmt.
-Proof. exact ReflectViewProgProofs.view_prog_correct_stmt_false. Qed.
-
-Theorem view_prog_correct_partial : forall sch h o, wf sch = true -> rp_heap_okb sch h = true -> vp_op_okb h o = true ->
-  (forall v, o = OLAppendMutable v -> view_liveb h v = true) -> vp_agrees sch h o.
-Proof. exact ReflectViewProgProofs.view_prog_correct_partial. Qed.
+(* all at once: every operation, with the view of AppendMutable live as the view of Len has to be *)
+Theorem view_prog_correct : view_prog_correct_stmt.
+Proof. exact ReflectViewProgProofs.view_prog_correct. Qed.
 
 (* the wrapper the plugin emits for a field is the canonical wrapper of the field's element (key, value) type *)
 Theorem canon_view_correct : canon_view_stmt.
